@@ -868,6 +868,19 @@ impl<'de, R: Read<'de>> Parser<R> {
         self.parse_symbol_scratch_suffix()
     }
 
+    /// Parse the rest of a name that started with a dot inside a list. It is read
+    /// like any other name, so `.name:` is a keyword here as well if that syntax
+    /// is enabled.
+    fn parse_dot_name(&mut self) -> Result<Value> {
+        let name = self.parse_symbol_suffix(".")?;
+        Ok(match self.name_token(name) {
+            Token::Keyword(name) => Value::Keyword(name),
+            Token::Symbol(name) => Value::Symbol(name),
+            // A name starting with a dot is neither `nil` nor `t`
+            _ => unreachable!(),
+        })
+    }
+
     fn parse_symbol_scratch_suffix(&mut self) -> Result<String> {
         match self.read.parse_symbol(&mut self.scratch)? {
             Reference::Borrowed(s) => Ok(s.into()),
@@ -957,7 +970,7 @@ impl<'de, R: Read<'de>> Parser<R> {
                                 pair.set_cdr(Value::from((Value::Nil, Value::Null)));
                                 pair = pair.cdr_mut().as_cons_mut().unwrap();
                             }
-                            pair.set_car(Value::symbol(self.parse_symbol_suffix(".")?));
+                            pair.set_car(self.parse_dot_name()?);
                             have_value = true;
                         }
                     }
@@ -1022,7 +1035,7 @@ impl<'de, R: Read<'de>> Parser<R> {
                                 pair = pair.cdr_mut().as_cons_mut().unwrap();
                                 meta = meta[1].cons_mut().unwrap();
                             }
-                            pair.set_car(Value::symbol(self.parse_symbol_suffix(".")?));
+                            pair.set_car(self.parse_dot_name()?);
                             meta[0] = SpanInfo::Prim(Span::new(start, self.read.position()));
                             have_value = true;
                         }
